@@ -663,7 +663,19 @@ def _report_val(chk, func, v: Val, what: str, sink: ast.AST) -> None:
     for node, why, st in v.tops:
         lab = _branch_label(func, st)
         where_ = st if st is not None else node
-        detail = (f"when {lab}: " if lab else "") + short(where_, 150)
+        # keyed by the policy branch and the ordinal of the offending statement in it, not by the statement's text: a
+        # rename inside the statement must not re-key a recorded finding, a SECOND offending statement must get its own key
+        if lab:
+            if not hasattr(chk, "_r15a_branch_ordinals"):
+                chk._r15a_branch_ordinals = {}
+            seen_ = chk._r15a_branch_ordinals
+            ids_ = seen_.setdefault((construct_of(sink), lab), [])
+            ident = (getattr(where_, "lineno", 0), getattr(where_, "col_offset", 0))
+            if ident not in ids_:
+                ids_.append(ident)
+            detail = f"when {lab}: statement #{sorted(ids_).index(ident) + 1} whose value is not a case map of the segment's text"
+        else:
+            detail = short(where_, 150)
         chk.fail(
             "R15a", where_,
             f"{what} is not a case-homomorphic image of the segment's text: {why}"
@@ -1074,7 +1086,7 @@ VARIANTS = [
         "snake-allcaps-branch-collapses-underscores", CP01,
         "                fixed_raw = segment.raw.lower()\n",
         "                fixed_raw = segment.raw.lower().replace(\"__\", \"_\")\n",
-        "R15a", "replace('__', '_')", "a second non-homomorphic statement in the snake branch is not covered by the listed finding",
+        "R15a", "statement #2", "a second non-homomorphic statement in the snake branch is not covered by the listed finding",
     ),
     Variant(
         "builder-appends-a-segment", CP01,
